@@ -139,7 +139,7 @@ impl Scenario for C25Scn {
         "C25"
     }
     fn rule(&self) -> &'static str {
-        "a real client subscribes to ObjectManager signals, calls GetManagedObjects on the manager it follows (at / or /a) while, optionally, a registration or removal runs concurrently on the server, and from then on applies every InterfacesAdded / InterfacesRemoved it received since sending that call, in order and idempotently; the server runs a history of 0..6 further at / remove operations, a third of them concurrently with a second operation (often the inverse one on the same path and interface; one interface has an async property getter that really yields), over 6 paths (nested, and the managers' own paths) x 3 interface types, including adding and removing ObjectManager itself and a second, sibling manager; after every operation (quiescence) the client's view must equal a fresh GetManagedObjects of that manager, including each interface's properties, ignoring paths without interfaces; when the followed manager disappears the client starts over from a fresh listing once it is back; in a quarter of the runs the last operation (an at / remove run alone) is cancelled at one of its first await points (fault kind cancel_task): whether it took effect is open, the client view must still equal a fresh listing; non-trivial = a registration happened between the client's call and its reply, or the history touched a manager"
+        "a real client subscribes to ObjectManager signals, calls GetManagedObjects on the manager it follows (at / or /a) while, optionally, a registration or removal runs concurrently on the server, and from then on applies every InterfacesAdded / InterfacesRemoved it received since sending that call, in order and idempotently; the server runs a history of 0..6 further at / remove operations, a third of them concurrently with a second operation (often the inverse one on the same path and interface; one interface has an async property getter that really yields), over 6 paths (nested, and the managers' own paths) x 3 interface types, including adding and removing ObjectManager itself, a second, sibling manager and - for a client of an inner manager - an outer manager at the root (nested managers, judged from the inside); after every operation (quiescence) the client's view must equal a fresh GetManagedObjects of that manager, including each interface's properties, ignoring paths without interfaces; when the followed manager disappears the client starts over from a fresh listing once it is back; in a quarter of the runs the last operation (an at / remove run alone) is cancelled at one of its first await points (fault kind cancel_task): whether it took effect is open, the client view must still equal a fresh listing; non-trivial = a registration happened between the client's call and its reply, or the history touched a manager"
     }
     fn runs(&self, tier: Tier) -> u64 {
         match tier {
@@ -159,7 +159,11 @@ impl Scenario for C25Scn {
 
     fn generate(&self, rng: &mut Rng, _idx: u64, _tier: Tier) -> (SchedCfg, Value) {
         let follow = *rng.pick(&[0u8, 0, 1, 2]);
-        let pick_manager = move |rng: &mut Rng| if follow == 0 { 0u8 } else { rng.range(1, 2) as u8 };
+        // A client of the root manager never sees another manager (the root's listing would include objects that
+        // only an inner manager announces: nested managers are judged from the inside only).  A client of /a or
+        // /d may see the sibling and also an *outer* manager at the root come and go: the closest manager above
+        // an object announces it, so nothing the root manager does may change what the inner one says.
+        let pick_manager = move |rng: &mut Rng| if follow == 0 { 0u8 } else { *rng.pick(&[0u8, 1, 1, 2, 2]) };
         let gen = move |rng: &mut Rng| match rng.below(10) {
             0..=4 => Op::At(rng.below(6) as u8, rng.below(3) as u8),
             5..=7 => Op::Remove(rng.below(6) as u8, rng.below(3) as u8),
